@@ -114,7 +114,7 @@ def unit_obligations(u, tier):
         o['unit'] = u['name']
     return [o for o in obs if tier in o['tiers']]
 
-def extract_unit(u, bdir):
+def extract_unit(u, bdir, tier='quick'):
     """clang AST -> frg2c -> build/<unit>/unit.c ; returns meta dict"""
     os.makedirs(bdir, exist_ok=True)
     inst = os.path.join(u['dir'], u.get('inst', 'inst.cpp'))
@@ -171,6 +171,10 @@ def extract_unit(u, bdir):
         p = os.path.join(u['dir'], f)
         if os.path.exists(p):
             tu.append('#include "%s"' % p)
+    gen = getattr(u['module'], 'generate', None)
+    if gen is not None:
+        for gf in gen(bdir, tier):
+            tu.append('#include "%s"' % gf)
     if u.get('auto_harness'):
         open(os.path.join(bdir, 'auto_harness.c'), 'w').write(auto_harness_text(u))
         tu.append('#include "%s"' % os.path.join(bdir, 'auto_harness.c'))
@@ -451,7 +455,7 @@ def check(prop, tier, only=None):
             bdir = os.path.join(BUILD, prop, u['name'])
             if os.path.isdir(bdir):
                 shutil.rmtree(bdir)
-            metas[u['name']] = extract_unit(u, bdir)
+            metas[u['name']] = extract_unit(u, bdir, tier)
             bdirs[u['name']] = bdir
             assumptions += scan_assumptions(u)
             assumptions += u.get('assumptions', [])
